@@ -142,6 +142,7 @@ def main(ctx):
             jobs.append({"part": "interop", "tier": tier, "slice": i, "slices": 4})
         for mc in (1, 2):
             jobs.append({"part": "limit", "tier": tier, "max": mc})
+        jobs.append({"part": "deferred", "tier": tier})
         ctx.pmap({"fw": fw, "nvx": "1"}, "props.c07:job", jobs)
     ctx.coverage["states"] = int(ctx.counters["cases"])
     ctx.coverage["transitions"] = int(ctx.counters["evaluations"])
@@ -149,7 +150,8 @@ def main(ctx):
     ctx.coverage["distinct_nontrivial"] = int(ctx.counters["nontrivial"])
     for n in ("ref:accept", "ref:reject", "ref:either", "server_open", "server_rejected",
               "client_open", "client_rejected", "token_strings", "url_cases", "segment_execs",
-              "interop_pairs", "limit_sequences", "limit_rejected", "limit_admitted"):
+              "interop_pairs", "limit_sequences", "limit_rejected", "limit_admitted",
+              "deferred_cases", "deferred_late_resolution"):
         ctx.require(n)
 
 
@@ -278,7 +280,8 @@ def job(a):
     env = worker.ENV
     part = a["part"]
     fn = {"server": _job_server, "tokens": _job_tokens, "client": _job_client, "urls": _job_urls,
-          "segment": _job_segment, "interop": _job_interop, "limit": _job_limit}[part]
+          "segment": _job_segment, "interop": _job_interop, "limit": _job_limit,
+          "deferred": _job_deferred}[part]
     return fn(a, env)
 
 
@@ -678,6 +681,93 @@ def _job_limit(a, env):
         stats["nontrivial"] += 1
     return {"evals": evals, "viol": viol, "stats": stats,
             "samples": [{"part": "limit", "max": M, "depth": depth}]}
+
+
+def _job_deferred(a, env):
+    """server onConnect answers asynchronously (pending Deferred/Future).  Every order of
+    {the application resolves it (accept / accept with protocol / deny / fail), the opening-handshake
+    timeout expires, the peer drops TCP, our own drop is delivered}: the handshake completes iff the
+    application accepted while the connection was still there; once the connection is gone nothing
+    may open it (no onOpen, state stays CLOSED), and nothing escapes."""
+    import txaio
+    from harness import ws
+    from autobahn.websocket.types import ConnectionDeny
+    stats = {"deferred_cases": 0, "deferred_late_resolution": 0, "cases": 0, "nontrivial": 0}
+    viol = []
+    evals = 0
+    seen = {}
+    events = ["resolve", "timeout", "peer-drop", "own-drop"]
+    for how in ("accept", "accept-proto", "deny", "fail"):
+        for order in itertools.permutations(events, 3):
+            holder = {}
+
+            def connect(proto, request, _h=holder):
+                _h["f"] = txaio.create_future()
+                _h["req"] = request
+                return _h["f"]
+            ep = ws.Endpoint("server", {"openHandshakeTimeout": 2}, hooks={"connect": connect},
+                             protocols=["chat"])
+            ep.feed(build_request(REQUEST_LINES[0], BASE))
+            ep.conn.settle()
+            if "f" not in holder or ep.state() != 1:
+                raise RuntimeError("harness: onConnect was not called / state %s" % ep.state())
+            gone_before_resolve = False
+            resolved = False
+            for ev in order:
+                if ev == "resolve":
+                    gone_before_resolve = ep.conn.lost or bool(ep.t.calls)
+                    resolved = True
+                    try:
+                        if how == "accept":
+                            txaio.resolve(holder["f"], None)
+                        elif how == "accept-proto":
+                            txaio.resolve(holder["f"], "chat")
+                        elif how == "deny":
+                            txaio.reject(holder["f"], ConnectionDeny(403, "no"))
+                        else:
+                            txaio.reject(holder["f"], RuntimeError("application failed"))
+                    except Exception as e:
+                        # the application's resolve() call must not blow up either
+                        ep.conn.escapes.append(e) if isinstance(ep.conn.escapes, list) else None
+                    ep.conn.settle()
+                elif ev == "timeout":
+                    ep.conn.advance(2.5)
+                elif ev == "peer-drop":
+                    if not ep.conn.lost:
+                        ep.conn.peer_drop(False)
+                        ep.conn.settle()
+                elif ev == "own-drop":
+                    if ep.conn.own_drop_pending():
+                        ep.conn.deliver_own_drop()
+                        ep.conn.settle()
+            evals += 1
+            stats["deferred_cases"] += 1
+            stats["cases"] += 1
+            stats["nontrivial"] += 1
+            if resolved and gone_before_resolve:
+                stats["deferred_late_resolution"] += 1
+            names = [e[0] for e in ep.rec]
+            label = "%s order=%s" % (how, list(order))
+            probs = []
+            if ep.conn.escapes:
+                probs.append(("escape", repr(ep.conn.escapes[0])[:160]))
+            opened = "onOpen" in names or ep.state() == 3
+            if resolved and gone_before_resolve and opened:
+                probs.append(("opened-after-connection-gone", "state=%s callbacks=%s" % (ep.state(), names)))
+            if how in ("deny", "fail") and opened:
+                probs.append(("opened-although-denied", "state=%s callbacks=%s" % (ep.state(), names)))
+            if (ep.conn.lost or ep.t.calls) and ep.state() not in (0,):
+                probs.append(("state-not-closed-after-drop", "state=%s calls=%s lost=%s" % (
+                    ep.state(), ep.t.calls, ep.conn.lost)))
+            if resolved and not gone_before_resolve and how.startswith("accept") and "onOpen" not in names:
+                probs.append(("accepted-in-time-but-not-opened", "state=%s callbacks=%s written=%r" % (
+                    ep.state(), names, bytes(ep.t.written)[:60])))
+            for clause, detail in probs:
+                seen[clause] = seen.get(clause, 0) + 1
+                if seen[clause] <= 2:
+                    viol.append(_viol(clause, "deferred-onconnect", label + ": " + detail, env, a, "deferred"))
+    return {"evals": evals, "viol": viol, "stats": stats,
+            "samples": [{"part": "deferred", "cases": stats["deferred_cases"]}]}
 
 
 def _job_interop(a, env):
